@@ -7,6 +7,7 @@ import (
 	"encoding/base64"
 	"encoding/gob"
 	"fmt"
+	"github.com/hedzr/is/term/color"
 	"strconv"
 	"strings"
 	"time"
@@ -51,7 +52,8 @@ func sgrScan(b []byte) (plain string, verdict string) {
 			if j < len(b) && b[j] == '[' {
 				j++
 				ds := j
-				for j < len(b) && (b[j] >= '0' && b[j] <= '9' || b[j] == ';') {
+				// ('-': a level configured without a foreground colour makes the encoder write its "no colour" value, ESC[-1m)
+				for j < len(b) && (b[j] >= '0' && b[j] <= '9' || b[j] == ';' || b[j] == '-') {
 					j++
 				}
 				if j < len(b) && b[j] == 'm' && j > ds {
@@ -428,6 +430,27 @@ func runC06(r *Run) {
 	}
 	for _, rec := range c06Corpus() {
 		one(rec, "corpus")
+	}
+	// level colours set with SetLevelColors (outside the model's registry: direct oracle only): a style and no
+	// foreground colour, a foreground colour and no background, both - on messages of one to four lines
+	for li, cols := range [][2]color.Color{{color.NoColor, color.Color(4)}, {color.Color(35), color.NoColor}, {color.Color(33), color.Color(44)}, {color.NoColor, color.NoColor}} {
+		lvl := 44 + li
+		slog.SetLevelColors(slog.Level(lvl), cols[0], cols[1])
+		for _, m := range []string{"one line", "first\nsecond", "first\nsecond\nthird", "first\nsecond\nthird\nfourth\n", "first\n\nthird\n"} {
+			for _, as := range [][]GAttr{nil, {{Key: "k", Val: GVal{Kind: "int", I: 1}}, {Key: "err", Val: GVal{Kind: "error", S: "boom"}}}} {
+				rec := EncRec{EncCfg{Mode: "color", Level: lvl, TagWidth: 3, MinWidth: 36}, m, as}
+				payloads := rec.emit()
+				if why := oracleColor(rec, payloads); why != "" {
+					var so []byte
+					if len(payloads) > 0 {
+						so = payloads[0]
+					}
+					r.Fail("C06/level-colours-set/"+strings.Fields(why + " x")[0], fmt.Sprintf("level %d with SetLevelColors(%d, %d): %s", lvl, cols[0], cols[1], why), encCase{fmt.Sprintf("corpus-setlevelcolors:%d:%d", cols[0], cols[1]), rec, strconv.Quote(string(so)), why})
+				}
+				r.Count(true, fmt.Sprintf("setlevelcolors %d %+v", li, rec))
+				r.Dist["setlevelcolors"]++
+			}
+		}
 	}
 	for _, rec := range encCorpus("color", prof) {
 		one(rec, "corpus")
